@@ -119,12 +119,22 @@ func (c *Channel) withdrawSubChannel(ctx context.Context, sub *Channel) error {
 	return errors.WithMessage(err, "update parent channel")
 }
 
-func (c *Channel) registerSubChannelFunding(id channel.ID, alloc []channel.Bal) {
+func (c *Channel) registerSubChannelFunding(id channel.ID, bals channel.Balances) {
 	filter := func(cu ChannelUpdate) bool {
-		expected := *channel.NewSubAlloc(id, alloc, nil)
-		_, containedBefore := c.machine.State().SubAlloc(expected.ID)
+		expected := *channel.NewSubAlloc(id, bals.Sum(), nil)
+		cur := c.machine.State()
+		_, containedBefore := cur.SubAlloc(expected.ID)
 		subAlloc, containedAfter := cu.State.SubAlloc(expected.ID)
-		return !containedBefore && containedAfter && expected.Equal(&subAlloc) == nil
+		if containedBefore || !containedAfter || expected.Equal(&subAlloc) != nil {
+			return false
+		}
+		// Every participant must be debited exactly its sub-channel balance and
+		// all other sub-allocations must stay as they are.
+		if cur.Balances.AssertGreaterOrEqual(bals) != nil ||
+			!cur.Balances.Sub(bals).Equal(cu.State.Balances) {
+			return false
+		}
+		return channel.SubAllocsEqual(append(cur.Clone().Locked, expected), cu.State.Locked)
 	}
 	ui := newUpdateInterceptor(filter)
 	c.subChannelFundings.Register(id, ui)
